@@ -295,7 +295,7 @@ def tlc(spec, cfg=None, workers=1, timeout=1800, env=None, extra=(), simulate=No
     if not os.path.exists(os.path.join(CLASSES, 'Rat.class')):
         raise MachineryError('build/classes/Rat.class missing: run ./setup.sh')
     metadir = tempfile.mkdtemp(prefix='tlcmeta-', dir=SCRATCH_ROOT)
-    cmd = ['java', '-XX:+UseParallelGC', '-Xmx' + heap, '-Xss64m']
+    cmd = ['java', '-XX:+UseParallelGC', '-Xmx' + heap, '-Xss64m', '-Djava.io.tmpdir=' + metadir]     # TLC leaves an empty tlc-<n> directory in java.io.tmpdir per run: keep it inside the scratch directory that is removed below
     if deque:
         cmd.append('-Dtlc2.tool.queue.IStateQueue=StateDeque')
     cmd += ['-cp', TLA_CP + ':' + CLASSES, 'tlc2.TLC', '-metadir', metadir, '-noGenerateSpecTE',
